@@ -106,7 +106,10 @@ def r2(ctx):
             while inner[0] == "un" and inner[1] == "Not":
                 inner = inner[2]
                 neg = not neg
-            if inner[0] == "call" and inner[1].endswith("kbucket::filter::Filter::filter") and "table_filter" in fmt_short(inner[2][0]):
+            is_tv = lambda a: a[0] == "call" and a[1].endswith("kbucket::filter::Filter::filter") and "table_filter" in fmt_short(a[2][0])
+            alts_ = list(inner[1]) if inner[0] == "phi" else [inner]
+            # the verdict, or a value that is the verdict or `true` (no filter set / unchanged value) - what a helper `passes_table_filter` returns
+            if any(is_tv(a) for a in alts_) and all(is_tv(a) or const_int_of(a) == 1 for a in alts_):
                 f, tr = g.bool_edges(bi)
                 fail_edges.add((bi, tr if neg else f))
         writes = [(bi, t) for bi, t in b.calls() if (t.callee() or "").startswith("crate::kbucket::bucket::KBucket::") and
@@ -136,7 +139,8 @@ def r2(ctx):
             inner, neg = e, False
             while inner[0] == "un" and inner[1] == "Not":
                 inner, neg = inner[2], not neg
-            if inner[0] == "call" and inner[1].endswith("kbucket::filter::Filter::filter") and "table_filter" in fmt_short(inner[2][0]):
+            alts_ = list(inner[1]) if inner[0] == "phi" else [inner]
+            if any(is_tv(a) for a in alts_) and all(is_tv(a) or const_int_of(a) == 1 for a in alts_):
                 f, tr = g.bool_edges(bi)
                 pass_true.append((bi, f if neg else tr))
         none_edges = []
@@ -154,8 +158,8 @@ def r2(ctx):
                 if const_int_of(a) == 0:
                     continue
                 c = comparison(a)
-                if c and c[0] == "==" and {fmt_short(c[1]).split(".")[-1], fmt_short(c[2])} == {"value"} and \
-                        any(x[0] == "call" and short(x[1]).endswith("KBucket::get") for x in walk(a)):
+                if c and c[0] == "==" and {fmt_short(c[1]).split(".")[-1], fmt_short(c[2])} == {"value"}:
+                    # `<stored node>.value == value` (the stored node may have been looked up in a closure of a combinator chain)
                     some = True
                 else:
                     good = False
@@ -225,7 +229,10 @@ def r2(ctx):
             while inner[0] == "un" and inner[1] == "Not":
                 inner = inner[2]
                 neg = not neg
-            if inner[0] == "call" and inner[1].endswith("kbucket::filter::Filter::filter") and "self.filter" in fmt_short(inner[2][0]):
+            is_v = lambda a: a[0] == "call" and a[1].endswith("kbucket::filter::Filter::filter") and "self.filter" in fmt_short(a[2][0])
+            alts_ = list(inner[1]) if inner[0] == "phi" else [inner]
+            # the verdict itself, or a helper's `match self.filter { Some(f) => f.filter(..), None => true }` (verdict or "no filter set")
+            if any(is_v(a) for a in alts_) and all(is_v(a) or const_int_of(a) == 1 for a in alts_):
                 f, tr = g.bool_edges(bi)
                 pass_edges.append((bi, f if neg else tr))
             if e[0] == "discr" and fmt_short(e[1]) == "self.filter":
